@@ -830,7 +830,13 @@ struct Drop {
 /// a distribution of `n` leaves with indices 0..n; `indexed`: a perfect positional tree
 /// (padded with distinct filler leaves) so that the leaf's index is its position
 fn make_drop(e: &Env, alg: Alg, indexed: bool, n: usize, tag: u32, rng: &mut Rng) -> Drop {
-    let mut leaves: Vec<Leaf> = (0..n).map(|i| Leaf { index: i as u32, amount: rng.i128_nonneg() >> 40, tag }).collect();
+    make_drop_shifted(e, alg, indexed, n, tag, 0, rng)
+}
+
+/// the same with every leaf's index raised by `shift`: with `shift` = the padded size of a positional tree the
+/// indices are congruent to the positions but are NOT positions of the tree
+fn make_drop_shifted(e: &Env, alg: Alg, indexed: bool, n: usize, tag: u32, shift: u32, rng: &mut Rng) -> Drop {
+    let mut leaves: Vec<Leaf> = (0..n).map(|i| Leaf { index: i as u32 + shift, amount: rng.i128_nonneg() >> 40, tag }).collect();
     // in the sorted form the index is only data of the leaf: every other distribution carries the two
     // highest legal indices (u32::MAX - 1, u32::MAX) on its last two leaves
     if !indexed && n >= 4 && rng.chance(50) {
@@ -867,6 +873,17 @@ fn dist_history(t: &mut Trace, rng: &mut Rng, alg: Alg, indexed: bool, n: usize,
     let b = make_drop(&sim.e, alg, indexed, n, base_tag + 1, rng);
     // a claim before any root is set
     sim.claim(t, indexed, &a.leaves[0], &a.items[0].proof, "noroot");
+    if indexed {
+        // positional form: a tree whose leaves carry indices that are congruent to their positions modulo the
+        // tree's width but lie outside it - none of them is a position of the tree, every claim must be refused
+        // (seed C17-r11-1: the distributor's positional path lost the range checks of verify_with_index)
+        let width = n.next_power_of_two() as u32;
+        let c = make_drop_shifted(&sim.e, alg, true, n, base_tag + 2, width * (1 + rng.below(3) as u32), rng);
+        sim.set_root(t, &c.root);
+        for i in 0..n.min(3) {
+            sim.claim(t, true, &c.leaves[i], &c.items[i].proof, "c:outside");
+        }
+    }
     sim.set_root(t, &a.root);
     let mut cur = &a;
     let mut other = &b;
